@@ -146,7 +146,7 @@ def run(tier):
     run = Run(PROP, tier, 'proof')
     spec_selfcheck()
     h = build()
-    msyn = h.monomorphise(['f32', 'f64'], bound='<S: BaseFloat>', method_syntax='only', soft=True)
+    msyn = h.monomorphise(['f32', 'f64'], bound=None, kinds=None, method_syntax='only', soft=True)
     mono = h.monomorphise(['f32', 'f64'], bound='<S: BaseFloat>') if tier == 'thorough' else []
     S, inv, meta = facts.extract(PROP, h.src())
     report_dropped(run, meta, h)
